@@ -35,6 +35,20 @@ CHECKS.update({
          _SS + "Oracle: KeyCnt = |retained|, level entries total = inner + leaf, monotone, last level = totals, empty (0,0), single key (1,1), loaded Stat deep-equals fresh Stat.", _NOTE, "5.C18"),
  "C19": ("model_checking", "small-scope exhaustive input enumeration incl. short-table scaffolds of every reachable size; rendering parsed and compared with the reference",
          _SS + "Oracle: String() does not panic; #id tokens are exactly {0..NodeCnt-1} each once; =value suffixes top to bottom equal the retained values in key order; loaded instance renders identically.", _NOTE, "5.C19"),
+ "C04": ("model_checking", "small-scope exhaustive enumeration of complete tries x start/end strings x inclusivities x callback stop points; explicit-state exploration of iterator call sequences incl. all interleavings of two iterators",
+         _SS + "Complete tries: NewIter driven as a state machine (next() to exhaustion + 3 calls) and ScanFrom from every start of the query universe, callback returning false after every j, ScanFromTo over the neighbourhood set squared x 4 inclusivity combinations, every interleaving of the next() calls of two iterators (result lists <= 3); encoders I32, String16, variable/zero-width, none. Incomplete tries (all 12 combinations, with and without values): ScanFrom/ScanFromTo/NewIter must panic before yielding anything. Oracle: slice of the sorted retained list with Encode(v) bytes.", _NOTE, "5.C04"),
+ "C08": ("model_checking", "exhaustive enumeration of key sequences (ordered tuples with repetition), injected order violations at every index, and every run length up to the 16-bit step boundary",
+         "Every key sequence of length <= 4/5 over a 21-string universe x 4 prefix modes x {values,nil}; valid lists of 8..200 keys with one violation (duplicate, swap, key followed by its prefix, 0x7f/0x80 inversion) at every index and two at every index pair; run lengths 0..1024 and around 16 KiB / 32 KiB / 64 KiB (every r in [0,33000] in thorough). Oracle: strictly ascending <=> accepted; rejected => ErrKeyOutOfOrder and nil trie; accepted => every own key found with its value; beyond 16 KiB refusal is tolerated, silent loss is not.",
+         "Bounded sequence length and alphabet; documented key limit taken as 16 KiB (README).", "5.C08"),
+ "C12": ("model_checking", "small-scope exhaustive enumeration of record sets x offset patterns x all block sizes x query universe against a map reference",
+         "All subsets of the 21-string universe up to 4/6 records plus regular large sets; Get with strictly increasing offsets in 4 gap patterns, RangeGet with block offsets for every block size 1..min(64,n); every query of the query universe and per-key mutations; key-verifying reader. Oracle: (record,true) for indexed keys, (\"\",false) otherwise.",
+         "Bounded record-set size and alphabet; the reader is a harness-side map.", "5.C12"),
+ "C16": ("model_checking", "exhaustive enumeration of index sets over two boundary-rich universes x element kinds, all accessors and all marshal round trips against map[int32]T",
+         "All 65536 subsets of a 16-position index universe (word boundaries, empty words) and all subsets of a 14-position universe reaching 2^20-1; U16/U32/U64/I16/I32/I64/struct; lane-alphabet values, exhaustive 2^16 values for the 16-bit kinds; every index of the span probed through typed Get, generic Get and GetBytes, fresh and after proto round trips typed<->generic; every invalid index sequence of length <= 4 and element counts off by 1..3 => dedicated error and nil array.",
+         "(zero,false) claimed within the bitmap span only.", "5.C16"),
+ "C17": ("model_checking", "small-scope exhaustive enumeration of key sets and adversarial parameterised families, each paired with every prefix-lifted copy; size oracle",
+         "Default options, nil values: all subsets up to the tier's size, all scaffolds, caterpillars / long-step trees / fan-out-11 / all-distinct-bitmap families / testkeys sets; for every K and every prefix P (1..16000 bytes of each symbol) the pair (K, P+K). Oracle: len(Marshal) <= 8n+256, |len(K)-len(P+K)| <= 24.",
+         "Bounded families (n <= 10^5 only via the archived sets); tolerance 24 bytes justified in DESIGN.md 5.C17.", "5.C17"),
 })
 NOT_YET = {}
 
